@@ -31,7 +31,12 @@ message, committer, timestamp, timezone, the same tree (paths, kinds, contents, 
 directories only in the rich format); the imported branch tip is the image of the tip; the tags are the
 images of the tags that point into the exported ancestry.
 
-Mutants: see the end of this docstring (filled by the self-test).
+Mutants this was built against (scratch worktree /var/tmp/wt-C44): exporter drops the merge lines; exporter
+uses the last parent as `from`; exporter omits the `D new` before a rename onto a deleted path (T2: needs
+`rm a; mv b a` in one commit); importer's delete handler is a no-op; importer ignores the committer's
+timezone; emit_tags names the branch tip for every tag; kind_to_mode loses the executable bit; importer
+keeps only the first parent; exporter emits no `M` for a renamed file whose executable bit alone changed
+(T2).  Harmless (stays clean): set-comprehension rewrite of deleted_paths.
 """
 import collections
 import hashlib
@@ -171,8 +176,9 @@ def classify_tree_diff(old_ents, new_ents):
     for f, e in new_ents.items():
         if f in old_ents and not e[2] and old_ents[f][0] != e[0] and old_ents[f][1] == e[1]:
             fams.add("plain-export-directory-rename-leaves-children-behind")
+    # entries (files, symlinks and directories) renamed by their own name / parent
     own = [(old_ents[f][0], e[0]) for f, e in new_ents.items()
-           if f in old_ents and old_ents[f][1] != e[1] and not e[2]]
+           if f in old_ents and old_ents[f][1] != e[1]]
     olds = {o for o, _n in own}
     if any(n in olds for _o, n in own):
         fams.add("export-rename-chain-or-swap")
